@@ -334,6 +334,18 @@ def run_valid(c):
         res = qn()
     part = len(sv) > 1
     rows = [r for r in res] if part else [res]
+    unwrapped = False
+    if batch and len(c["mps"]) == 1 and c["mps"][0]["t"] == "counts":
+        # recorded finding: a quantum function returning the 1-tuple (counts,) called with a broadcast parameter gives the
+        # bare list of per-entry dictionaries instead of a 1-tuple holding it (sample / probs keep the tuple); the content is
+        # still checked after re-wrapping
+        fixed = []
+        for r in rows:
+            if isinstance(r, (list, tuple)) and len(r) == len(batch["xs"]) and all(isinstance(x, dict) for x in r):
+                fixed.append((list(r),)); unwrapped = True
+            else:
+                fixed.append(r)
+        rows = fixed
     if part and len(rows) != len(sv):
         return {"struct": f"outer length {len(rows)} for {len(sv)} bins"}
     if any(not isinstance(r, (tuple, list)) or len(r) != len(c["mps"]) for r in rows):
@@ -347,7 +359,7 @@ def run_valid(c):
                 return {"struct": f"leading (broadcast) length {len(x)} for {nb} parameters"}
     return {"batches": [{"bins": [[canon_valid(m, x[b]) for m, x in zip(c["mps"], r)] for r in rows],
                          "info": valid_info(c, [["RY", batch["xs"][b], batch["wire"]]] + c["gates"])}
-                        for b in range(nb)]}
+                        for b in range(nb)], "unwrapped_single_counts": unwrapped}
 
 
 def run_stat(c):
